@@ -128,16 +128,16 @@ Proof.
 Qed.
 
 Theorem stream_screen (st : style) p m b t0 :
-  rect_ok p -> mode_ok m -> start_ok t0 -> fits st t0 (width p) (height p) ->
+  rect_ok p -> blank_reset_ok p -> mode_ok m -> start_ok t0 -> fits st t0 (width p) (height p) ->
   exists ws, stream_of st p m (fmt_of b) = Ok ws /\
     let t' := feed W H t0 (wire st (concat ws)) in
     sgr t' = default_attrs /\
     forall y x, (0 <= y < H)%Z ->
       scr t' y x = chor_screen H (scr t0) (origin_y st t0) (origin_x st t0) (width p) (cellss_of p m b) y x.
 Proof.
-  intros Hp (Hl1 & Hl2 & Hph) (Hpend & Hcx & Hcy) Hfit.
+  intros Hp Hbr (Hl1 & Hl2 & Hph) (Hpend & Hcx & Hcy) Hfit.
   pose proof Hp as (P1 & P2 & P3 & P4 & P5). destruct (rect_ok_msb p Hp) as [_ Hm].
-  pose proof (to_lines_toks p m b (rect_ok_validate p Hp) Hph P5) as TL.
+  pose proof (to_lines_toks p m b (rect_ok_validate p Hp) Hph P5 Hbr) as TL.
   pose proof (lines_toks_ok p m b P5 Hm) as Hlt.
   pose proof (lines_ok_of_line_tok _ Hlt) as Hok.
   assert (Hne : lines_toks p m b <> []).
@@ -154,7 +154,7 @@ Proof.
     rewrite (cursor_go_sr p _ 0 _ Hne Hlen). unfold feed.
     rewrite tokens_ser_toks by (apply chor_toks_ok; [apply sr_pre_ok|apply sr_post_ok|exact Hok]).
     rewrite <- lcs_fst, <- lcs_snd.
-    apply (chor_spec W H HH sr_pre sr_post (width p) (fun x => x + Z.of_nat (width p) <= W)%Z).
+    apply (chor_spec_scr W H HH sr_pre sr_post (width p) (fun x => x + Z.of_nat (width p) <= W)%Z).
     + intros x Hx. exact Hx.
     + intros l cells Hl Hlc t Hp0 Hx0 HPx Hy0. apply (sr_step W H (width p) l cells Hl Hlc t Hp0 Hx0 HPx Hy0).
     + exact Hne'.
@@ -169,7 +169,7 @@ Proof.
     rewrite tokens_ser_toks by (apply chor_toks_ok; [constructor|apply rel_post_ok|exact Hok]).
     rewrite <- lcs_fst, <- lcs_snd.
     replace (N.to_nat (end_col p - start_col p)) with (width p) by (unfold width; lia).
-    apply (chor_spec W H HH [] (rel_post (width p)) (width p) (fun x => x + Z.of_nat (width p) < W)%Z).
+    apply (chor_spec_scr W H HH [] (rel_post (width p)) (width p) (fun x => x + Z.of_nat (width p) < W)%Z).
     + intros x Hx. lia.
     + intros l cells Hl Hlc t Hp0 Hx0 HPx Hy0. apply (rel_step W H (width p) l cells Hw Hl Hlc t Hp0 Hx0 HPx Hy0).
     + exact Hne'.
@@ -183,7 +183,7 @@ Proof.
     rewrite (cursor_go_lf p us _ 0 _ Hne Hlen Hlt). unfold feed.
     rewrite tokens_ser_toks by (apply chor_toks_ok; [constructor|apply lf_post_ok|exact Hok]).
     rewrite <- lcs_fst, <- lcs_snd.
-    apply (chor_spec W H HH [] lf_post (width p) (fun x => x = 0 /\ Z.of_nat (width p) <= W)%Z).
+    apply (chor_spec_scr W H HH [] lf_post (width p) (fun x => x = 0 /\ Z.of_nat (width p) <= W)%Z).
     + intros x Hx. lia.
     + intros l cells Hl Hlc t Hp0 Hx0 HPx Hy0. apply (lf_step W H (width p) l cells Hl Hlc t Hp0 Hx0 HPx Hy0).
     + exact Hne'.
@@ -205,7 +205,7 @@ Proof.
     intros y x Hy. rewrite A2. rewrite lcs_snd. unfold abs_screen, chor_screen.
     assert (Hh' : length (cellss_of p m b) = height p) by (unfold cellss_of; rewrite map_length; apply rows_of_length).
     rewrite Hh'. replace (Z.max 0 (Z.of_N py + Z.of_nat (height p) - H))%Z with 0%Z by lia.
-    rewrite !Z.add_0_r.
+    unfold shown_screen. rewrite Hh', !Z.add_0_r.
     destruct ((Z.of_N py <=? y)%Z && (y <? Z.of_N py + Z.of_nat (height p))%Z &&
               ((Z.of_N px <=? x)%Z && (x <? Z.of_N px + Z.of_nat (width p))%Z)); [reflexivity|].
     destruct (y <? H)%Z eqn:E; [reflexivity|lia].
@@ -223,7 +223,7 @@ Proof.
 Qed.
 
 Theorem stream_decodes (st : style) p m b t0 (x0n restn : nat) :
-  rect_ok p -> mode_ok m -> start_ok t0 -> fits st t0 (width p) (height p) ->
+  rect_ok p -> blank_reset_ok p -> mode_ok m -> start_ok t0 -> fits st t0 (width p) (height p) ->
   (forall y x, scr t0 y x = blank_cell) ->
   origin_x st t0 = Z.of_nat x0n -> W = Z.of_nat (x0n + width p + restn) ->
   exists ws, stream_of st p m (fmt_of b) = Ok ws /\
@@ -231,8 +231,8 @@ Theorem stream_decodes (st : style) p m b t0 (x0n restn : nat) :
     forall x y, (0 <= x < W)%Z -> (0 <= y < H)%Z ->
       decode_at (scr t') (Z.to_nat W) (Z.to_nat x) y = expected_at p (origin_x st t0) (origin_y st t0) x y.
 Proof.
-  intros Hp Hm Hs Hfit Hblank Hox HWeq.
-  destruct (stream_screen st p m b t0 Hp Hm Hs Hfit) as (ws & Hws & Hscr). exists ws. split; [exact Hws|].
+  intros Hp Hbr Hm Hs Hfit Hblank Hox HWeq.
+  destruct (stream_screen st p m b t0 Hp Hbr Hm Hs Hfit) as (ws & Hws & Hscr). exists ws. split; [exact Hws|].
   cbv zeta in *. destruct Hscr as [_ Hscr]. set (t' := feed W H t0 (wire st (concat ws))) in *.
   pose proof Hp as (P1 & P2 & P3 & P4 & P5). destruct Hm as (Hl1 & Hl2 & Hph). destruct (rect_ok_msb p Hp) as [Hmsb Hm].
   intros x y Hx Hy.
@@ -240,9 +240,9 @@ Proof.
   { unfold cellss_of. apply Forall_forall. intros c Hc. apply in_map_iff in Hc as (row & <- & _). apply row_cells_of_length. exact P3. }
   assert (Hh : length (cellss_of p m b) = height p) by (unfold cellss_of; rewrite map_length; apply rows_of_length).
   assert (Hscr' : forall y x, (0 <= y < H)%Z -> scr t' y x = chor_screen H blank_screen (origin_y st t0) (Z.of_nat x0n) (width p) (cellss_of p m b) y x).
-  { intros y' x' Hy'. rewrite Hscr by exact Hy'. rewrite Hox. unfold chor_screen, blank_screen. rewrite !Hblank. reflexivity. }
-  pose proof (decode_line_chor H (scr t') x0n (width p) restn (origin_y st t0) (cellss_of p m b) Hall Hscr' y Hy) as D.
-  cbv zeta in D. rewrite Hh in D.
+  { intros y' x' Hy'. rewrite Hscr by exact Hy'. rewrite Hox. unfold chor_screen, shown_screen, blank_screen. rewrite !Hblank. reflexivity. }
+  pose proof (decode_line_shown H (scr t') x0n (width p) restn (origin_y st t0) _ (cellss_of p m b) Hall Hscr' y Hy) as D.
+  rewrite Hh in D.
   unfold decode_at. rewrite HWeq, Nat2Z.id, D. unfold expected_at. rewrite Hox.
   set (oy := origin_y st t0) in *. set (sc := Z.max 0 (oy + Z.of_nat (height p) - H)) in *.
   destruct ((oy <=? y + sc)%Z && (y + sc <? oy + Z.of_nat (height p))%Z) eqn:Erow; cbn [andb].
@@ -277,14 +277,14 @@ Qed.
 
 (* the same without the auxiliary split of the screen width *)
 Corollary stream_decodes_all (st : style) p m b t0 :
-  rect_ok p -> mode_ok m -> start_ok t0 -> fits st t0 (width p) (height p) ->
+  rect_ok p -> blank_reset_ok p -> mode_ok m -> start_ok t0 -> fits st t0 (width p) (height p) ->
   (forall y x, scr t0 y x = blank_cell) ->
   exists ws, stream_of st p m (fmt_of b) = Ok ws /\
     let t' := feed W H t0 (wire st (concat ws)) in
     forall x y, (0 <= x < W)%Z -> (0 <= y < H)%Z ->
       decode_at (scr t') (Z.to_nat W) (Z.to_nat x) y = expected_at p (origin_x st t0) (origin_y st t0) x y.
 Proof.
-  intros Hp Hm Hs Hfit Hblank.
+  intros Hp Hbr Hm Hs Hfit Hblank.
   assert (Hox : (0 <= origin_x st t0 /\ origin_x st t0 + Z.of_nat (width p) <= W)%Z).
   { destruct Hs as (_ & Hcx & _). destruct st; cbn [origin_x PlaceholderStmt.fits] in *; lia. }
   apply (stream_decodes st p m b t0 (Z.to_nat (origin_x st t0)) (Z.to_nat (W - origin_x st t0 - Z.of_nat (width p)))); try assumption; lia.
